@@ -816,6 +816,7 @@ async fn transport_part(ctx: &Ctx, rng: &mut Rng) {
                 }
             };
             ctx.class(&format!("transport/{}/{}", ["peer-resets", "peer-stalls", "peer-reads", "peer-reads", "peer-reads"][fate], if tail.is_some() { "ends-in-failed-write" } else { "all-writes-ok" }));
+            ctx.count(&format!("transport-connections/{}/{}", ["peer-resets", "peer-stalls", "peer-reads", "peer-reads", "peer-reads"][fate], if tail.is_some() { "ends-in-failed-write" } else { "all-writes-ok" }), 1);
             let Some(got) = got else { continue };
             ctx.eval(frames_ok.max(1));
             let ok = got.len() >= expected.len()
